@@ -1,106 +1,9 @@
-import Bch.Generated.Facts
-import Bch.Model.CashAddr
-import Bch.Model.Bech32
-import Bch.Model.Base58
-import Bch.Model.Address
-import Bch.Model.HDKey
-import Bch.Model.Merkle
-import Bch.Model.GcsBuilder
-import Bch.Model.Amount
-import Bch.Model.Locking
-/-
-The translator side of the tie: `Bch/Generated/Facts.lean` is rewritten from /repo's current source and
-from the running implementation on every check; each theorem below states that a regenerated fact equals
-what the hand-written model assumes. A change to the Go code that alters a constant, a table, a checksum
-generator, the lock skeleton of a bloom.Filter method or the write set of a gcs.Filter method makes one of
-these stop checking.
--/
-namespace Bch.Tie
-open Bch Bch.Model
-
-def nats (b : Bytes) : List Nat := b.map (·.toNat)
-
-theorem tie_cashCharset : Generated.cashCharset = nats CashAddr.charset := by decide +kernel
-
-theorem tie_cashCharsetRev :
-    Generated.cashCharsetRev = (List.range 128).map (fun c =>
-      match CashAddr.charsetRev (UInt8.ofNat c) with | some v => (v.toNat : Int) | none => -1) := by decide +kernel
-
-theorem tie_bech32Charset : Generated.bech32Charset = nats Bech32.charset := by decide +kernel
-theorem tie_bech32Gen : Generated.bech32Gen = Bech32.gen := by decide +kernel
-theorem tie_b58Alphabet : Generated.b58Alphabet = nats Base58.alphabet := by decide +kernel
-theorem tie_b58Table :
-    Generated.b58Table = (List.range 256).map (fun c =>
-      match Base58.b58 (UInt8.ofNat c) with | some v => v | none => 255) := by decide +kernel
-
-theorem tie_hd_constants :
-    Generated.hardenedKeyStart = HDKey.hardenedKeyStart ∧ Generated.minSeedBytes = 16 ∧ Generated.maxSeedBytes = 64 := by
-  decide +kernel
-
-theorem tie_hdPairs :
-    Generated.hdPairs = HDKey.hdPairs.map (fun p => (nats p.1, nats p.2)) := by decide +kernel
-
-theorem tie_gcs_constants :
-    Generated.gcsKeySize = 16 ∧ Generated.defaultP = 19 ∧ Generated.defaultM = 784931 := by decide +kernel
-
-theorem tie_limits :
-    Generated.maxTxnCount = Merkle.maxTxnCount ∧ Generated.maxFilterLoadFilterSize = 36000 ∧
-    Generated.maxFilterLoadHashFuncs = 50 := by decide +kernel
-
-theorem tie_amount_constants :
-    Generated.satoshiPerBitcoin = 100000000 ∧ Generated.maxSatoshi = 2100000000000000 ∧
-    Generated.amountUnits = [6, 3, 0, -3, -6, -8] ∧
-    Generated.amountLabels = ([6, 3, 0, -3, -6, -8, 1] : List Int).map Amount.unitString := by decide +kernel
-
-theorem tie_nets :
-    Generated.netNames = Address.nets.map (·.name) ∧
-    Generated.netCashPrefixes = Address.nets.map (fun n => nats n.cashPrefix) ∧
-    Generated.netSlpPrefixes = Address.nets.map (fun n => nats n.slpPrefix) ∧
-    Generated.netPkhIDs = Address.nets.map (·.pkhID.toNat) ∧
-    Generated.netShIDs = Address.nets.map (·.shID.toNat) ∧
-    Generated.netWifIDs = Address.nets.map (·.wifID.toNat) ∧
-    Generated.netHdPriv = Address.nets.map (fun n => nats n.hdPriv) ∧
-    Generated.netHdPub = Address.nets.map (fun n => nats n.hdPub) := by decide +kernel
-
-theorem tie_registered_ids :
-    Generated.pkhIDs = nats Address.pkhIDs ∧ Generated.shIDs = nats Address.shIDs := by decide +kernel
-
-/-- `n` successive syndromes of a unit error moving away from the end of the word: x, step x, step (step x), … -/
-def orbit (step : Nat → Nat) : Nat → Nat → List Nat
-  | 0, _ => []
-  | n+1, x => x :: orbit step n (step x)
-
-/-- the implementation's own CashAddr checksum, probed on unit errors over a 112-symbol window, behaves as the
-    model's step function iterated on the error value (what linearity predicts; see Props/C03) -/
-theorem tie_cashSyndromes :
-    Generated.cashSyndromes = (List.range 5).map (fun b => orbit (fun c => CashAddr.polyModStep c 0) 112 (2 ^ b)) := by
-  decide +kernel
-
-theorem tie_cashPrefixPolyMods :
-    Generated.cashPrefixPolyMods =
-      ["bitcoincash", "simpleledger", "bchtest", "slptest", "bchreg", "slpreg", "bchsim"].map (fun p =>
-        CashAddr.polyMod (CashAddr.expandPrefix (Bytes.ofString p))) := by decide +kernel
-
-theorem tie_bech32Syndromes :
-    Generated.bech32Syndromes = (List.range 5).map (fun b => orbit (fun c => Bech32.polymodStep c 0) 89 (2 ^ b)) := by
-  decide +kernel
-
-/-- every exported method of bloom.Filter takes the mutex before touching the shared message and releases it
-    before returning -/
-theorem tie_bloom_lock_discipline :
-    Generated.bloomSkeletons.all (fun m => Locking.wellBracketed m.2) = true := by decide +kernel
-
-/-- the operations documented as safe for concurrent access are exactly the exported methods analysed -/
-theorem tie_bloom_methods :
-    Generated.bloomSkeletons.map (·.1) =
-      ["Add", "AddHash", "AddOutPoint", "IsLoaded", "MatchTxAndUpdate", "Matches", "MatchesOutPoint",
-       "MsgFilterLoad", "Reload", "Unload"] := by decide +kernel
-
-/-- no method of gcs.Filter writes receiver state: filters are immutable after construction -/
-theorem tie_gcs_immutable : Generated.gcsWrites.all (fun m => m.2 == 0) = true := by decide +kernel
-
-theorem tie_gcs_methods :
-    ["Match", "MatchAny", "ZipMatchAny", "HashMatchAny"].all (fun n => (Generated.gcsWrites.map (·.1)).contains n) = true := by
-  decide +kernel
-
-end Bch.Tie
+import Bch.Tie.Addr
+import Bch.Tie.Bech32
+import Bch.Tie.Base58
+import Bch.Tie.HD
+import Bch.Tie.Gcs
+import Bch.Tie.Limits
+import Bch.Tie.Amount
+import Bch.Tie.Locking
+/-! All tie modules (see `Bch/Tie/*.lean`). -/
